@@ -30,6 +30,7 @@ fn near(sz: usize, lim: u32) -> bool {
 
 impl Observer for SizeMonitor {
     fn on_step(&mut self, w: &World, pre: &Tracker, _pa: &App, st: &Step) -> R {
+        check_wire("C14", st, w.t.cfg.idw)?;
         if st.panic.is_some() {
             return Ok(());
         }
